@@ -19,6 +19,14 @@
 //         ne (u v)*ne ideal mode
 //         mode 0 = makeFeasible()+run() with setAvoidNodeOverlaps(true, groups) (and the cluster hierarchy when ncl > 0)
 //         prints  "R (cx cy w h)*n UX k idx* UY k idx* [EXC ...]"  or  "HANG <phase>"
+//         optional trailing section (call-sequence family): ncalls (phase avoid nexg groups)*ncalls - the complete list of
+//         setAvoidNodeOverlaps(avoid, groups) calls made on the layout object, phase 0 = before makeFeasible(), phase 1 = between
+//         makeFeasible() and run(); when present it REPLACES the single default call setAvoidNodeOverlaps(true, groups)
+// exempt: ku id*ku | ncalls (avoid nexg (k id*k)*nexg)*ncalls
+//         drives a NonOverlapConstraintExemptions object directly (addExemptGroupOfNodes per call) and a ConstrainedFDLayout
+//         object through setAvoidNodeOverlaps(avoid, groups); after every call prints shapePairIsExempt for every ordered pair of
+//         distinct ids of the universe and the stored set (getExemptPairs() in iteration order):
+//         "D (C m (a b)*m bits)*ncalls"  and  "L (C avoid m (a b)*m bits)*ncalls"
 #include <cstddef>
 #include <cfloat>
 #include <cstdio>
@@ -269,6 +277,8 @@ static void readCcs(Toks &tk, CompoundConstraints &ccs)
 struct Scene {
     vpsc::Rectangles rs; int n; ListOfNodeIndexes groups; RootCluster *root; vector<Cluster *> cl; CompoundConstraints ccs;
     vector<std::pair<unsigned, unsigned> > es; double ideal; int mode;
+    struct Call { int phase; bool avoid; ListOfNodeIndexes groups; };
+    bool haveCalls; vector<Call> calls;
 };
 static void readScene(Toks &tk, Scene &sc)
 {
@@ -296,6 +306,53 @@ static void readScene(Toks &tk, Scene &sc)
     int ne = tk.next();
     for (int i = 0; i < ne; i++) { unsigned u = tk.next(), v = tk.next(); sc.es.push_back(std::make_pair(u, v)); }
     sc.ideal = tk.q(); sc.mode = tk.next();
+    sc.haveCalls = false;
+    if (tk.p < tk.t.size()) {
+        sc.haveCalls = true;
+        int ncalls = tk.next();
+        for (int i = 0; i < ncalls; i++) {
+            Scene::Call c; c.phase = tk.next(); c.avoid = tk.next() != 0;
+            readGroups(tk, c.groups);
+            sc.calls.push_back(c);
+        }
+    }
+}
+
+// exempt mode: see the header comment
+static void dumpExempt(std::ostream &out, NonOverlapConstraintExemptions &ex, const vector<unsigned> &U)
+{
+    std::set<ShapePair> st = ex.getExemptPairs();
+    out << " " << st.size();
+    for (std::set<ShapePair>::const_iterator it = st.begin(); it != st.end(); ++it) out << " " << it->index1() << " " << it->index2();
+    out << " b";
+    for (size_t i = 0; i < U.size(); i++) for (size_t j = 0; j < U.size(); j++) {
+        if (U[i] == U[j]) continue;
+        out << (ex.shapePairIsExempt(ShapePair(U[i], U[j])) ? '1' : '0');
+    }
+}
+static void exemptMode(Toks &tk)
+{
+    int ku = tk.next();
+    vector<unsigned> U; for (int i = 0; i < ku; i++) U.push_back(tk.next());
+    int ncalls = tk.next();
+    NonOverlapConstraintExemptions direct;
+    vpsc::Rectangles rs; rs.push_back(new vpsc::Rectangle(0, 10, 0, 10)); rs.push_back(new vpsc::Rectangle(20, 30, 0, 10));
+    vector<std::pair<unsigned, unsigned> > es; es.push_back(std::make_pair(0u, 1u));
+    std::ostringstream d, l;
+    {
+        ConstrainedFDLayout alg(rs, es, 10);
+        d << "D"; l << "L";
+        for (int c = 0; c < ncalls; c++) {
+            bool avoid = tk.next() != 0;
+            ListOfNodeIndexes groups; readGroups(tk, groups);
+            direct.addExemptGroupOfNodes(groups);
+            alg.setAvoidNodeOverlaps(avoid, groups);
+            d << " C"; dumpExempt(d, direct, U);
+            l << " C " << (alg.m_generateNonOverlapConstraints ? 1 : 0); dumpExempt(l, *alg.m_nonoverlap_exemptions, U);
+        }
+    }
+    std::cout << d.str() << "\n" << l.str() << "\n";
+    for (size_t i = 0; i < rs.size(); i++) delete rs[i];
 }
 
 // vars: the variable list of each dimension exactly as run() builds it before a projection (colafd.cpp:316-324 then moveTo
@@ -408,11 +465,13 @@ static void layoutMode(Toks &tk)
     try {
         ConstrainedFDLayout alg(rs, es, ideal);
         alg.setConstraints(ccs);
-        alg.setAvoidNodeOverlaps(true, groups);
+        if (!sc.haveCalls) alg.setAvoidNodeOverlaps(true, groups);
+        for (size_t i = 0; i < sc.calls.size(); i++) if (sc.calls[i].phase == 0) alg.setAvoidNodeOverlaps(sc.calls[i].avoid, sc.calls[i].groups);
         if (root) alg.setClusterHierarchy(root);
         alg.setUnsatisfiableConstraintInfo(&ux, &uy);
         g_phase = "makeFeasible";
         if (mode == 0 || mode == 2) alg.makeFeasible();
+        for (size_t i = 0; i < sc.calls.size(); i++) if (sc.calls[i].phase == 1) alg.setAvoidNodeOverlaps(sc.calls[i].avoid, sc.calls[i].groups);
         g_phase = "run";
         if (mode == 0 || mode == 1) alg.run();
     } catch (InvalidVariableIndexException &e) { exc = "InvalidVariableIndexException";
@@ -458,7 +517,7 @@ int main(int argc, char **argv)
         std::istringstream is(line); std::string w;
         while (is >> w) { if (w == "|") continue; tk.t.push_back(atol(w.c_str())); }
         try {
-            if (mode == "gen") genMode(tk); else if (mode == "vars") varsMode(tk); else layoutMode(tk);
+            if (mode == "gen") genMode(tk); else if (mode == "vars") varsMode(tk); else if (mode == "exempt") exemptMode(tk); else layoutMode(tk);
         } catch (std::string &s) { std::cout << "BADINPUT " << s << "\n"; }
         std::cout.flush();
     }
